@@ -22,6 +22,7 @@ def check(run):
                                                                     "entry_filed_under_canonical_keys"))
     verify.verify(run, c.E, c.contracts["meth:images.Images._add_1_1"], crosscheck=False)
     verify.verify(run, c.E, c.contracts["meth:rpms.Rpms.deserialize_0_3"])
+    verify.verify(run, c.E, c.contracts["meth:rpms.Rpms.deserialize_0_3:2v"])
     verify.verify(run, c.E, c.contracts["gate:images.Images.deserialize"])
     IA.ast_only_writer(run, c.src, "images", "Images", "images", ["add"])
     IA.ast_only_writer(run, c.src, "rpms", "Rpms", "rpms", ["add", "deserialize_0_3", "deserialize_1_0"])
